@@ -4,5 +4,6 @@ package sio
 
 var verifHarnesses = map[string]func(){
 	"VerifC14Sio":         VerifC14Sio,
+	"VerifC15":            VerifC15,
 	"VerifSioOrderLemmas": VerifSioOrderLemmas,
 }
